@@ -69,7 +69,8 @@ impl SocketRecv for DealerSocket {
                 Some((_peer_id, Ok(_))) => {
                     // Ignore non-message frames
                 }
-                Some((_peer_id, Err(e))) => {
+                Some((peer_id, Err(e))) => {
+                    self.backend.peer_disconnected(&peer_id).await;
                     // Handle potential errors from the fair queue
                     return Err(e.into());
                 }
